@@ -136,7 +136,6 @@ static int parse_device(AsmContext *asm_context)
 
 static int parse_set(AsmContext *asm_context)
 {
-  char token[TOKENLEN];
   char name[TOKENLEN];
   //char value[TOKENLEN];
   int num;
@@ -148,7 +147,7 @@ static int parse_set(AsmContext *asm_context)
 
   if (token_type == TOKEN_EOL || token_type == TOKEN_EOF)
   {
-    print_error_unexp(asm_context, token);
+    print_error_unexp(asm_context, name);
     return -1;
   }
 
